@@ -60,19 +60,33 @@ class Repo:
         self.CALENDAR = self.data.CALENDAR
 
     def set_mode(self, mode, case=None):
-        """Select calendar `mode` (canonical name).  With a case, about a
-        quarter of the non-Gregorian cases (chosen by a checksum of the
-        case, so a replay makes the same choice; or case["alias"]) select
-        the mode by its documented alias spelling "360_day" etc."""
-        if case is not None and mode != "gregorian":
+        """Select calendar `mode` (canonical name).  With a case, some of
+        the cases (chosen by a checksum of the case, so a replay makes the
+        same choice; or case["alias"]) select the mode by another accepted
+        spelling: the documented alias "360_day" etc. (a quarter of the
+        non-Gregorian cases) or an upper-case / capitalised spelling, which
+        Calendar.set_mode also accepts (an eighth of all cases)."""
+        if case is not None:
             alias = case.get("alias") if isinstance(case, dict) else None
             if alias is None:
                 alias = zlib.crc32(json.dumps(
-                    case, sort_keys=True, default=str).encode()) % 4 == 0
-            if alias:
+                    case, sort_keys=True, default=str).encode()) % 8
+            elif alias is True:
+                alias = 0
+            elif alias is False:
+                alias = 7
+            if alias in (0, 1) and mode != "gregorian":
                 mode = mode.replace("day", "_day")
+            elif alias == 2:
+                mode = mode.upper() if len(mode) % 2 else mode.capitalize()
         if self.CALENDAR.mode != mode:
             self.CALENDAR.set_mode(mode)
+        if case is not None and alias == 3:
+            # a private Calendar object in some other mode is nobody's
+            # business: the active calendar is Calendar.default()
+            scratch = self.data.Calendar()
+            scratch.set_mode(("360day", "365day", "gregorian")[
+                len(mode) % 3])
 
     def tp(self, kw):
         return self.TimePoint(**kw)
